@@ -129,6 +129,8 @@ def replay(rec: dict) -> bool:
 def run(ctx: Ctx):
     with lean_lock():
         ctx.extract(x_db.GEN_NAME, x_db.emit)
+        for what in x_db.SOFT:    # a rewritten (translated) method whose old shape test no longer applies: evidence only
+            ctx.count("table-shape-superseded-by-translation:" + what)
         ctx.extract(x_tr.GEN_NAME, x_tr.emit)
         for fname, *_ in x_tr.FUNCS:   # one obligation per translated method: an untranslatable one does not hide the others
             ctx.oblige(f"translate:{fname}", "extractor", fname not in x_tr.FAILED, x_tr.FAILED.get(fname, ""))
